@@ -119,7 +119,7 @@ def build_harness(profile="release", features=None, target_dir=None):
         dst = os.path.join(HARNESS, "Cargo.lock")
         if not os.path.exists(dst):
             run(["cp", lock, dst])
-    cmd = ["cargo", "build", "--offline"]
+    cmd = ["cargo", "build", "--offline", "--bin", "rxharness"]
     if profile == "release":
         cmd.append("--release")
     td = target_dir or os.path.join(HARNESS, "target")
